@@ -132,6 +132,44 @@ def classify_case(job, acc: Acc):
             what=f"{pname} free-form layout {lname} (no_indent={lay.no_indent}) classified as fixed form"))
 
 
+# Declaration-only files (the usual shape of an include file) written flush left in free form: a line that begins with a
+# type keyword in columns 1-5 is a free-form statement even when its first letter (c, d) is a fixed-form comment flag.
+DECL_LINES = ["character(len=8) :: {n}", "complex :: {n}", "class(*), pointer :: {n}", "double precision :: {n}", "double complex, parameter :: {n} = (0d0, 1d0)",
+              "integer :: {n}", "real, parameter :: {n} = 1.0", "logical :: {n}", "type(tt) :: {n}", "! a comment line", "", "  ! an indented comment"]
+
+
+def declfile_jobs(maxlen):
+    import itertools
+
+    for n in range(1, maxlen + 1):
+        for combo in itertools.product(range(len(DECL_LINES)), repeat=n):
+            if any("{n}" in DECL_LINES[i] for i in combo):
+                yield combo
+
+
+def declfile_case(combo, acc: Acc):
+    from fortls.parsers.internal.parser import FortranFile
+
+    lines, names = [], []
+    for k, i in enumerate(combo):
+        if "{n}" in DECL_LINES[i]:
+            names.append(f"dv{k}")
+        lines.append(DECL_LINES[i].format(n=f"dv{k}"))
+    text = "\n".join(lines) + "\n"
+    f = FortranFile("/nonexistent/decls.f90")
+    f.apply_change({"text": text})
+    ast = f.parse()
+    got = sorted(v.name.lower() for v in ast.variable_list)
+    acc.case(nontrivial_key=combo, outcome=(bool(f.fixed), len(got)))
+    tags = {"family": "declaration_files", "first_letters": "".join(sorted({ln[0] for ln in lines if ln[:1].isalpha()}))}
+    if f.fixed:
+        acc.violation(Violation("declaration_files", {**tags, "kind": "classified_fixed"}, {"text": text}, "free form", "fixed form",
+                                what=f"{text!r} classified as fixed form"))
+    elif got != sorted(names):
+        acc.violation(Violation("declaration_files", {**tags, "kind": "entities"}, {"text": text}, sorted(names), got,
+                                what=f"{text!r}: declared {sorted(names)}, indexed {got}"))
+
+
 def main(ctx):
     q = ctx.quick
     ctx.rule = ("equivalence: 7 canonical programs rendered in fixed form x {comment line with each of C c * ! d D in every line "
@@ -166,12 +204,16 @@ def main(ctx):
                 cjobs.append((pname, tname, anchor, kw))
     cacc = core.pmap(classify_case, cjobs, chunk=64, budget_s=60, label="C14/classify")
     ctx.add_family("classification", cacc, layouts=len(cjobs))
+    djobs = list(declfile_jobs(3 if q else 4))
+    dacc = core.pmap(declfile_case, djobs, chunk=128, budget_s=60, label="C14/declfiles")
+    ctx.add_family("declaration_files", dacc, lines=len(DECL_LINES), max_lines=3 if q else 4,
+                   what="flush-left free-form files of declarations, comment and blank lines: classified free, every entity indexed")
 
 
 def replay(rec):
     c = rec["case"]
     acc = Acc()
-    lay = c["layout"]
+    lay = c.get("layout", {})
     kw = {}
     for k, v in lay.items():
         if k in ("blank_above", "comment_above"):
@@ -182,6 +224,12 @@ def replay(rec):
             kw[k] = set(v)
         else:
             kw[k] = v
+    if rec["family"] == "declaration_files":
+        import re as _re
+
+        combo = [DECL_LINES.index(_re.sub(r"dv\d+", "{n}", ln)) for ln in c["text"].split("\n")[:-1]]
+        declfile_case(tuple(combo), acc)
+        return [v.to_json("C14") for v in acc.violations] or None
     if rec["family"] == "equivalence":
         equiv_case((c["program"], c["rendering"], c["anchor"], kw), acc)
     else:
